@@ -111,6 +111,17 @@ let c10_oracles (ops : string list) (impl : res list list list) : (string * bool
   let peer = new_peer () and activity = ref 0 and stop_ok = ref true in
   (* every connect request is answered at most once: accepted or rejected events never outnumber the requests that emitted a packet *)
   let connects = ref 0 and answers = ref 0 and answered_ok = ref true in
+  let accepted_ok = ref true in
+  (* the server's messages as the client receives them (specification decoder on the inbound bytes, piece by piece): the onStatus
+     codes that complete in each input call *)
+  let pin = { ist = ChunkSpec.sdec_init; buf = []; broken = false } in
+  let str_of (l : BinNums.coq_N list) = String.concat "" (List.map (fun b -> String.make 1 (Char.chr (int_of_n b land 255))) l) in
+  let status_codes (ms : Chunk.msg list) : string list =
+    List.filter_map (fun (m : Chunk.msg) ->
+      match Messages.of_payload m.Chunk.m_tid m.Chunk.m_data with
+      | Base.Ok (Messages.MAmf0Command (name, _, _, Amf0.VObject ps :: _)) when str_of name = "onStatus" ->
+        (match SessionCommon.prop_get (bytes_of_ints (List.map Char.code (List.of_seq (String.to_seq "code")))) ps with Some (Amf0.VString c) -> Some (str_of c) | _ -> None)
+      | _ -> None) ms in
   let command_names (all : res list) : string list =
     List.concat_map (function
       | Pkt (_, b) ->
@@ -142,10 +153,22 @@ let c10_oracles (ops : string list) (impl : res list list list) : (string * bool
      | ("video" | "audio" | "meta") :: _ -> if has_packet && not !publishing then flag pubmedia_ok
      | _ -> ());
     if errored_input then tainted := true;
+    let codes = (match t with
+      | ["in"; _; part; h] -> (try List.concat_map (fun piece -> status_codes (inbound_feed pin piece)) (partition part (bytes_of_hex h)) with _ -> pin.broken <- true; [])
+      | _ -> []) in
+    let saw code = pin.broken || List.mem code codes in
+    List.iter (function
+      | Other "E:PlayAccepted" when not (saw "NetStream.Play.Start") -> flag accepted_ok
+      | Other "E:PubAccepted" when not (saw "NetStream.Publish.Start") -> flag accepted_ok
+      | _ -> ()) all;
     List.iter (function
       | Other "E:ConnAccepted" -> connected := true; activity := 0; incr answers; if !answers > !connects then answered_ok := false
       | Other s when starts_with "E:ConnRejected" s -> incr answers; if !answers > !connects then answered_ok := false
-      | Other "E:PubAccepted" -> if !pub_requested then publishing := true
+      | Other "E:PubAccepted" -> if !pub_requested then publishing := true;
+        (* a start status advances exactly the request it answers: accepted events only for the activity the client itself announced
+           on the wire (its own publish / play command, read with the specification decoder) *)
+        if peer.ok && !activity <> 2 then flag accepted_ok
+      | Other "E:PlayAccepted" -> if peer.ok && !activity <> 1 then flag accepted_ok
       | Other s when starts_with "E:Video:" s || starts_with "E:Audio:" s -> if not !play_active then flag media_ok
       | Other s when starts_with "E:Meta:" s -> if not (!play_active || !pub_requested) then flag media_ok   (* needs an active stream *)
       | _ -> ()) all) ops impl
@@ -153,6 +176,7 @@ let c10_oracles (ops : string list) (impl : res list list list) : (string * bool
   [ "C10.connect_only_when_disconnected", !connect_ok; "C10.media_events_only_while_play_requested_or_running", !media_ok;
     "C10.publish_media_only_while_publishing", !pubmedia_ok; "C10.stop_emits_delete_stream_exactly_from_matching_activity", !stop_ok;
     "C10.each_connect_request_answered_at_most_once", !answered_ok;
+    "C10.accepted_event_matches_the_request_on_the_wire", !accepted_ok;
     "C10.workflow_after_failed_input", !after_fail_ok ]
 
 let oracle (toks : string list) (obs : string) : (string * bool) list =
